@@ -51,7 +51,7 @@ PROPS = [
     ("model_time", ["C12"]), ("not_accepted=>path", ["C12"]), ("step_norms", ["C12"]), ("primal_step_norm", ["C12"]), ("dual_step_norm", ["C12"]),
     ("limits_tested_before", ["C08", "C02"]), ("iterate_is_last_accepted", ["C08", "C12"]),
     ("requires dt>0", ["C15", "C06"]), ("requires rho>0", ["C16"]),
-    ("raises_only", ["C07", "C06"]), ("initial-point", ["C07"]), ("returns_only_through", ["C12"]), ("result.status", ["C02", "C01"]),
+    ("raises_only", ["C07", "C06", "C09"]), ("initial-point", ["C07"]), ("returns_only_through", ["C12"]), ("result.status", ["C02", "C01"]),
     ("result.iterations", ["C12"]), ("result.num_accepted", ["C12"]), ("gate_tested", ["C01", "C02"]), ("result(x,y,d)", ["C12", "C01", "C08", "C05"]),
     ("result.x_is", ["C12", "C01"]), ("IterationLimit", ["C02", "C08"]), ("never_more_iterations", ["C02"]), ("no_limit", ["C02"]),
     ("collect_path", ["C12"]), ("no_collect_path", ["C12", "C09"]), ("final_rho", ["C16"]), ("dist_factor", ["C12"]),
@@ -234,7 +234,10 @@ class SolveLoop:
 
     def _prove_all(self, it, frame, phase):
         for label, goal in self.inv(it, frame):
-            it.path.prove(goal, f"Solver.solve/invariant:{phase}:{label}", kind="invariant", props=props_of(label))
+            pr = props_of(label)
+            if phase == "establish" and pr is not None:
+                pr = pr + ["C10"]  # established from state that earlier solves may have left behind
+            it.path.prove(goal, f"Solver.solve/invariant:{phase}:{label}", kind="invariant", props=pr)
 
     def establish(self, it, frame, site):
         ctx = self.ctx
@@ -515,7 +518,7 @@ def solve_unit(u, policy):
 
 
 def _mk(policy):
-    @unit(f"solve.{policy}", ["C12", "C02", "C15", "C16", "C07", "C06", "C08", "C01", "C05", "C10"], [SOLVE, "pygradflow.solver.Solver._compute_step", "pygradflow.solver.Solver.print_result", "pygradflow.display.print_problem_stats", "pygradflow.display.StateData.__init__", "pygradflow.display.StateData.__setitem__", "pygradflow.result.SolverResult.__init__", "pygradflow.solver.Solver._deriv_check", "pygradflow.penalty.penalty_strategy", "pygradflow.step.step_control.step_controller", "pygradflow.timer.Timer.__init__", "pygradflow.timer.SimpleTimer.elapsed", "pygradflow.iterate.Iterate.dist", "pygradflow.util.norm_mult"], config={"max_paths": 6000, "implicit_props": ["C06"]})
+    @unit(f"solve.{policy}", ["C12", "C02", "C15", "C16", "C07", "C06", "C08", "C01", "C05", "C10", "C09"], [SOLVE, "pygradflow.solver.Solver._compute_step", "pygradflow.solver.Solver.print_result", "pygradflow.display.print_problem_stats", "pygradflow.display.StateData.__init__", "pygradflow.display.StateData.__setitem__", "pygradflow.result.SolverResult.__init__", "pygradflow.solver.Solver._deriv_check", "pygradflow.penalty.penalty_strategy", "pygradflow.step.step_control.step_controller", "pygradflow.timer.Timer.__init__", "pygradflow.timer.SimpleTimer.elapsed", "pygradflow.iterate.Iterate.dist", "pygradflow.util.norm_mult"], config={"max_paths": 6000, "implicit_props": ["C06"]})
     def _u(u, policy=policy):
         solve_unit(u, policy)
 
